@@ -57,6 +57,9 @@ impl Thread {
 pub struct Scope<'scope, 'env: 'scope> {
     num_running_threads: AtomicUsize,
     main_task: TaskId,
+    // whether the main task is blocked in `scope` itself, waiting for the scoped threads (it may also be
+    // blocked elsewhere, e.g. in `ScopedJoinHandle::join`, where only the joined thread's exit may wake it)
+    main_waiting: AtomicBool,
     scope: PhantomData<&'scope mut &'scope ()>,
     env: PhantomData<&'env mut &'env ()>,
 }
@@ -96,7 +99,7 @@ impl<'scope> Scope<'scope, '_> {
 
                 finished.store(true, Ordering::Relaxed);
 
-                if self.num_running_threads.fetch_sub(1, Ordering::Relaxed) == 1 {
+                if self.num_running_threads.fetch_sub(1, Ordering::Relaxed) == 1 && self.main_waiting.load(Ordering::Relaxed) {
                     ExecutionState::with(|s| s.get_mut(self.main_task).unblock());
                 }
 
@@ -128,6 +131,7 @@ where
     let scope = Scope {
         num_running_threads: AtomicUsize::new(0),
         main_task: ExecutionState::with(|s| s.current().id()),
+        main_waiting: AtomicBool::new(false),
         env: PhantomData,
         scope: PhantomData,
     };
@@ -136,6 +140,7 @@ where
 
     if scope.num_running_threads.load(Ordering::Relaxed) != 0 {
         tracing::info!("thread blocked, waiting for completion of scoped threads");
+        scope.main_waiting.store(true, Ordering::Relaxed);
         ExecutionState::with(|s| s.current_mut().block(false));
         thread::switch();
     }
